@@ -45,6 +45,9 @@ ChkF4(name, idx, cond, f1, c1, f2, c2, f3, c3) ==
 ChkF5(name, idx, cond, f1, c1, f2, c2, f3, c3, f4, c4) ==
   cond \/ (PrintT(<<"FAIL", name, idx>>) /\ (c1 => PrintT(<<"FINDING", f1, idx>>)) /\ (c2 => PrintT(<<"FINDING", f2, idx>>))
                /\ (c3 => PrintT(<<"FINDING", f3, idx>>)) /\ (c4 => PrintT(<<"FINDING", f4, idx>>)) /\ FALSE)
+ChkF6(name, idx, cond, f1, c1, f2, c2, f3, c3, f4, c4, f5, c5) ==
+  cond \/ (PrintT(<<"FAIL", name, idx>>) /\ (c1 => PrintT(<<"FINDING", f1, idx>>)) /\ (c2 => PrintT(<<"FINDING", f2, idx>>))
+               /\ (c3 => PrintT(<<"FINDING", f3, idx>>)) /\ (c4 => PrintT(<<"FINDING", f4, idx>>)) /\ (c5 => PrintT(<<"FINDING", f5, idx>>)) /\ FALSE)
 ChkF2(name, idx, cond, f1, c1, f2, c2) ==
   cond \/ (PrintT(<<"FAIL", name, idx>>) /\ (c1 => PrintT(<<"FINDING", f1, idx>>)) /\ (c2 => PrintT(<<"FINDING", f2, idx>>)) /\ FALSE)
 
@@ -649,18 +652,29 @@ NodeContained(e, k) ==
   /\ \A i \in 1..Len(T[k].poly) : InOrNear(T[T[k].parent].poly, T[k].poly[i])
   /\ \A n \in 1..Len(e.probes) :
        (FarClosed(e.probes[n], polys, Band4) /\ WnPath(e.probes[n], T[k].poly) # 0) => WnPath(e.probes[n], T[T[k].parent].poly) # 0
+\* (path1InsidePath2 walks the child's vertices, skips those exactly on the parent's boundary and answers "inside" at the
+\*  second consecutive vertex that PointInPolygon reports strictly inside)
 TwoTouch(e, k) ==
-  LET T == e.tree  q == T[k].poly  par == T[T[k].parent].poly IN
-  \E i \in 1..Len(q) : ~FarClosedPath(q[i], par, Band4) /\ ~FarClosedPath(Nxt(q, i), par, Band4)
+  LET T == e.tree  q == T[k].poly  par == T[T[k].parent].poly  n == Len(q)
+      On(i) == \E j \in 1..Len(par) : OnSeg(q[i], par[j], Nxt(par, j))
+      StrictIn(i) == ~On(i) /\ WnPath(q[i], par) # 0 /\ ~FarClosedPath(q[i], par, Band4)
+      \* the first vertex after i (cyclically) that is not on the parent's boundary; i itself if there is none
+      NextOff(i) == LET f[d \in 0..n] == IF d = 0 THEN i
+                                         ELSE IF f[d - 1] # i THEN f[d - 1]
+                                         ELSE LET j == ((i + d - 1) % n) + 1 IN IF On(j) THEN i ELSE j
+                    IN  f[n]
+  IN  \E i \in 1..n : StrictIn(i) /\ NextOff(i) # i /\ StrictIn(NextOff(i))
 ContainedInParents(e) ==
   \A k \in 1..Len(e.tree) : e.tree[k].parent # 0 => (NodeContained(e, k) \/ TwoTouch(e, k))
 
 TreeOpOK(e, idx) ==
   /\ Chk("OUT", idx, OutOK(e))
   /\ Has(e, "ARGS") => Chk("ARGS", idx, e.argsSame)
-  /\ Has(e, "C04") => ChkF5("C04", idx, C04OK(e), "tree-touching", Len(e.tree) = Len(e.flat) /\ TouchingPolys(e) /\ ContainedInParents(e),
+  /\ Has(e, "C04") => ChkF6("C04", idx, C04OK(e), "tree-touching", Len(e.tree) = Len(e.flat) /\ TouchingPolys(e) /\ ContainedInParents(e),
                                         "tree-drops-line-paths", C04SigLinePaths(e), "tree-sliver-orientation", C04SigSliver(e),
-                                        "tree-needle-vertex", C04SigNeedle(e))
+                                        "tree-needle-vertex", C04SigNeedle(e),
+                                        \* not a touching case (required by the counter-factual finding tree-join-owner)
+                                        "tree-apart", ~TouchingPolys(e))
 
 (***************************************************************************)
 (* Open subject paths (C09).  All coordinates of the observation are in    *)
